@@ -40,31 +40,29 @@ package ast_java
 // the declared method is entered in the method table under package.class.name:line with its name, return type and
 // ordered (type, name) parameter list; the other entries are untouched
 //@ method JavaFullListener.EnterMethodDeclaration
-//@ requires currentType != "CreatorClass"
 //@ modifies creatorMethodMap
 //@ modifies methodMap
 //@ modifies methodQueue
 //@ modifies currentMethod
 //@ modifies localVars
-//@ ensures MKey(currentPkg, currentClz, GetText(Child(ctx, "identifier")), GetLine(GetStart(ctx))) in methodMap
-//@ ensures methodMap[MKey(currentPkg, currentClz, GetText(Child(ctx, "identifier")), GetLine(GetStart(ctx)))].Name == GetText(Child(ctx, "identifier")) &&
+//@ ensures currentType != "CreatorClass" ==> MKey(currentPkg, currentClz, GetText(Child(ctx, "identifier")), GetLine(GetStart(ctx))) in methodMap
+//@ ensures currentType != "CreatorClass" ==> methodMap[MKey(currentPkg, currentClz, GetText(Child(ctx, "identifier")), GetLine(GetStart(ctx)))].Name == GetText(Child(ctx, "identifier")) &&
 //@    methodMap[MKey(currentPkg, currentClz, GetText(Child(ctx, "identifier")), GetLine(GetStart(ctx)))].ReturnType == GetText(Child(ctx, "typeTypeOrVoid"))
-//@ ensures FParamList(ctx) != nil ==> ParamsAre(methodMap[MKey(currentPkg, currentClz, GetText(Child(ctx, "identifier")), GetLine(GetStart(ctx)))].Parameters, FParamList(ctx), NFParams(ctx))
-//@ ensures FParamList(ctx) == nil ==> len(methodMap[MKey(currentPkg, currentClz, GetText(Child(ctx, "identifier")), GetLine(GetStart(ctx)))].Parameters) == 0
-//@ ensures forall k string :: {k in methodMap} {methodMap[k]} k != MKey(currentPkg, currentClz, GetText(Child(ctx, "identifier")), GetLine(GetStart(ctx))) ==>
+//@ ensures currentType != "CreatorClass" && FParamList(ctx) != nil ==> ParamsAre(methodMap[MKey(currentPkg, currentClz, GetText(Child(ctx, "identifier")), GetLine(GetStart(ctx)))].Parameters, FParamList(ctx), NFParams(ctx))
+//@ ensures currentType != "CreatorClass" && FParamList(ctx) == nil ==> len(methodMap[MKey(currentPkg, currentClz, GetText(Child(ctx, "identifier")), GetLine(GetStart(ctx)))].Parameters) == 0
+//@ ensures forall k string :: {k in methodMap} {methodMap[k]} currentType != "CreatorClass" && k != MKey(currentPkg, currentClz, GetText(Child(ctx, "identifier")), GetLine(GetStart(ctx))) ==>
 //@    ((k in methodMap) <==> old(k in methodMap)) && methodMap[k] == old(methodMap[k])
 
 // the class declaration names the entry being read, with its kind
 //@ method JavaFullListener.EnterClassDeclaration
-//@ requires (*currentNode).NodeName == ""
 //@ modifies *currentNode
 //@ modifies currentType
 //@ modifies hasEnterClass
 //@ modifies currentClzExtend
 //@ modifies currentClz
 //@ modifies classNodeQueue
-//@ ensures (*currentNode).NodeName == GetText(Child(ctx, "identifier")) && (*currentNode).Type == "Class" && currentClz == GetText(Child(ctx, "identifier"))
-//@ ensures (*currentNode).Package == old((*currentNode).Package) && classNodeQueue == old(classNodeQueue)
+//@ ensures old((*currentNode).NodeName) == "" ==> (*currentNode).NodeName == GetText(Child(ctx, "identifier")) && (*currentNode).Type == "Class" && currentClz == GetText(Child(ctx, "identifier"))
+//@ ensures old((*currentNode).NodeName) == "" ==> (*currentNode).Package == old((*currentNode).Package) && classNodeQueue == old(classNodeQueue)
 
 //@ method JavaFullListener.EnterPackageDeclaration
 //@ modifies *currentNode
@@ -75,12 +73,11 @@ package ast_java
 // the end of the body of a top-level class or interface lists its entry exactly once: package, name, kind, source path and
 // the functions of the method table; then a fresh entry is started
 //@ method JavaFullListener.exitBody
-//@ requires (*currentNode).NodeName != "" && currentType != "CreatorClass" && len(classNodeQueue) == 0
 //@ modifies *
-//@ ensures len(classNodes) == old(len(classNodes)) + 1 && Extends(classNodes, old(classNodes), 1)
-//@ ensures classNodes[len(classNodes) - 1].NodeName == old((*currentNode).NodeName) && classNodes[len(classNodes) - 1].Package == old((*currentNode).Package) &&
+//@ ensures old((*currentNode).NodeName != "" && currentType != "CreatorClass" && len(classNodeQueue) == 0) ==> len(classNodes) == old(len(classNodes)) + 1 && Extends(classNodes, old(classNodes), 1)
+//@ ensures old((*currentNode).NodeName != "" && currentType != "CreatorClass" && len(classNodeQueue) == 0) ==> classNodes[len(classNodes) - 1].NodeName == old((*currentNode).NodeName) && classNodes[len(classNodes) - 1].Package == old((*currentNode).Package) &&
 //@    classNodes[len(classNodes) - 1].Type == old((*currentNode).Type) && classNodes[len(classNodes) - 1].Extend == old((*currentNode).Extend) &&
 //@    classNodes[len(classNodes) - 1].FilePath == old(fileName) && classNodes[len(classNodes) - 1].Annotations == old((*currentNode).Annotations)
-//@ ensures len(classNodes[len(classNodes) - 1].Functions) == old(len(methodMap))
-//@ ensures forall k string :: {k in old(methodMap)} (k in old(methodMap)) ==> (exists i int :: 0 <= i && i < len(classNodes[len(classNodes) - 1].Functions) && classNodes[len(classNodes) - 1].Functions[i] == old(methodMap[k]))
-//@ ensures currentNode != nil && (*currentNode).NodeName == "" && methodMap != nil && len(methodMap) == 0
+//@ ensures old((*currentNode).NodeName != "" && currentType != "CreatorClass" && len(classNodeQueue) == 0) ==> len(classNodes[len(classNodes) - 1].Functions) == old(len(methodMap))
+//@ ensures forall k string :: {k in old(methodMap)} old((*currentNode).NodeName != "" && currentType != "CreatorClass" && len(classNodeQueue) == 0) && (k in old(methodMap)) ==> (exists i int :: 0 <= i && i < len(classNodes[len(classNodes) - 1].Functions) && classNodes[len(classNodes) - 1].Functions[i] == old(methodMap[k]))
+//@ ensures old((*currentNode).NodeName != "" && currentType != "CreatorClass" && len(classNodeQueue) == 0) ==> currentNode != nil && (*currentNode).NodeName == "" && methodMap != nil && len(methodMap) == 0
